@@ -23,8 +23,28 @@ def simulate_histories(cfg, num, depth, seed):
     return r, hists
 
 
-def run_history(hist, args, payload=gitskin.default_payload, skin=None, env=None):
+_STUB_SEQ = __import__("itertools").count()
+
+
+def run_history(hist, args, payload=gitskin.default_payload, skin=None, env=None, cmd=None):
     data, texts = gitskin.concretise(hist, payload=payload, skin=skin)
+    if cmd:
+        # delta started as `delta <options> git diff --word-diff`: it runs the (stub) git itself, which prints the input;
+        # the command line of that git is what delta takes the mode from
+        import os
+        binpath = os.path.join(core.FIXBIN, "bin")
+        if not os.path.exists(os.path.join(binpath, cmd[0])):
+            raise core.ToolError(f"stub {cmd[0]} missing: run ./setup.sh")
+        d = os.path.join(core.scratch(), "stubin")
+        os.makedirs(d, exist_ok=True)
+        f = os.path.join(d, f"in{os.getpid()}_{next(_STUB_SEQ)}.txt")
+        with open(f, "wb") as fh:
+            fh.write(data)
+        e2 = dict(env or {})
+        e2.update({"PATH": binpath + ":/usr/bin:/bin", "STUB_OUT": f})
+        r = core.run_delta(gitskin.RS_ARGS + list(args) + list(cmd), b"", env=e2)
+        os.unlink(f)
+        return data, texts, r
     r = core.run_delta(gitskin.RS_ARGS + list(args), data, env=env)
     return data, texts, r
 
@@ -108,9 +128,10 @@ def relevant(pid, f):
 class Plan:
     """One batch of runs: histories x one configuration."""
 
-    def __init__(self, name, hists, args=(), cfg=None, payload=gitskin.default_payload, skin=None, env=None):
+    def __init__(self, name, hists, args=(), cfg=None, payload=gitskin.default_payload, skin=None, env=None, cmd=None):
         self.name, self.hists, self.args, self.payload, self.skin, self.env = name, hists, list(args), payload, skin, env
-        self.cfg = {"keep": False, "tabs": 8, "colorOnly": False, "buf": 32, "hhFile": True, "rel": False}
+        self.cmd = cmd
+        self.cfg = {"keep": False, "tabs": 8, "colorOnly": False, "buf": 32, "hhFile": True, "rel": False, "wd": False}
         if cfg:
             self.cfg.update(cfg)
 
@@ -124,7 +145,7 @@ def execute_plans(plans):
 
     def one(ij):
         i, (p, h) = ij
-        data, texts, r = run_history(h, p.args, payload=p.payload, skin=p.skin, env=p.env)
+        data, texts, r = run_history(h, p.args, payload=p.payload, skin=p.skin, env=p.env, cmd=p.cmd)
         ev, rows = run_event(i, h, texts, r, p.cfg, skin=p.skin or {}, data=data)
         return (p, h, data, r, ev, rows)
 
